@@ -743,3 +743,62 @@ def loops(tier, seed):
            "exhaustive": True, "wall_s": round(time.time() - t0, 1), "cached": False}
     cache_put("loops", key, res)
     return res
+
+
+def world_tour(tier, seed):
+    """Spec -> code for C13: every transition of the two-world model (clone, clone_from, drop,
+    diverging creates/destroys) replayed; both worlds compared with the model after every step."""
+    import tour as T
+    key = key_of("world_tour", repo_hash(), verif_hash(), tier)
+    c = cache_get("world_tour", key)
+    if c:
+        c["cached"] = True
+        return c
+    t0 = time.time()
+    binp = build_harness((), False)
+    if tier == "quick":
+        consts = dict(MaxCap=6, MaxSlotVer=3, MaxArchVer=4, InitCaps="{0, 2}", MaxOps=6, MaxLen=3)
+        caps, archs = [0, 2], [1]
+    else:
+        consts = dict(MaxCap=6, MaxSlotVer=3, MaxArchVer=4, InitCaps="{0, 1, 2}", MaxOps=8, MaxLen=3)
+        caps, archs = [0, 1, 2], [0, 1, 2, 3]
+    edges_all, st = T.export_world_edges(consts)
+    edges = [e for e in edges_all if T.world_real_edge(e)]
+    paths, unreachable = T.plan_world_paths(edges, caps)
+    covered = len({ei for p in paths for ei in p})
+    def one(a):
+        lines, expect = T.render_world(edges, paths, a)
+        sfile = os.path.join(_trace_dir(), "wtour-%s-%d.txt" % (key[:8], a))
+        with open(sfile, "w") as f:
+            f.write("\n".join(lines) + "\n")
+        trace = sfile + ".ndjson"
+        rc, out, dt = sh([binp, "exec", "--in", sfile, "--out", trace], timeout=3000, check=False)
+        if rc != 0:
+            with open(trace, "a") as f:
+                f.write(json.dumps({"op": "crash", "phase": "process", "during": "world tour", "signal": -rc if rc < 0 else rc}) + "\n")
+        viol, tst = validate_trace(trace, timeout=6000)
+        matched, drift, first = T.compare_world(trace, expect, a)
+        n, ops = _count_ops(trace)
+        res = {"a": a, "events": n, "ops": ops, "tlc": tst, "matched": matched, "drift": drift, "first_drift": first,
+               "violations": _collect(trace, viol, {"engine": "world_tour", "archetype": a, "script": sfile}),
+               "samples": [{"script_head": lines[:14]}] if a == archs[0] else []}
+        if not viol:
+            os.remove(trace)
+            os.remove(sfile)
+        return res
+    with ThreadPoolExecutor(max_workers=4) as ex:
+        parts = list(ex.map(one, archs))
+    drift = sum(p["drift"] for p in parts)
+    if drift:
+        log("DRIFT (two-world model): %d steps differ (not a violation): %s" % (drift, json.dumps([p["first_drift"] for p in parts if p["first_drift"]][:1])[:700]))
+    res = {"engine": "world_tour", "tier": tier, "model": consts, "model_states": st.get("distinct", 0),
+           "edges_exported": len(edges_all), "edges_real": len(edges), "edges_covered": covered, "edges_unreachable": unreachable,
+           "paths": len(paths), "archetypes": archs, "traces": len(paths) * len(archs), "events": sum(p["events"] for p in parts),
+           "clone_steps": sum(p["ops"].get("clone", 0) for p in parts),
+           "impl_states_matched": sum(p["matched"] for p in parts), "drift": drift,
+           "tlc_states": st.get("distinct", 0) + sum(p["tlc"].get("distinct", 0) for p in parts),
+           "tlc_transitions": st.get("generated", 0) + sum(p["tlc"].get("generated", 0) for p in parts),
+           "violations": [v for p in parts for v in p["violations"]], "samples": [s for p in parts for s in p["samples"]],
+           "exhaustive": drift == 0 and unreachable == 0, "wall_s": round(time.time() - t0, 1), "cached": False}
+    cache_put("world_tour", key, res)
+    return res
